@@ -447,13 +447,19 @@ class Lexer:
         text, end = self.parse_until_text(True, r"\|", r"}")
         if end == "|":
             escapes, end = self.parse_until_text(True, r"}")
+            # the line the filter list begins on, relative to the
+            # expression
+            leading = escapes[: len(escapes) - len(escapes.lstrip())]
+            escapes_lineno_offset = (text + leading).count("\n")
         else:
             escapes = ""
+            escapes_lineno_offset = 0
         text = text.replace("\r\n", "\n")
         self.append_node(
             parsetree.Expression,
             text,
             escapes.strip(),
+            escapes_lineno_offset=escapes_lineno_offset,
             lineno=line,
             pos=pos,
         )
